@@ -418,7 +418,8 @@ instance (fee : Nat) (fs ca dep ex : Bytes) : Decidable (GenericWF fee fs ca dep
 
 /-- ERC1155: values are words, the recipient is an EVM address -/
 def Semi.WF (v : Semi) : Prop :=
-  (∀ x ∈ v.ids, x < 2 ^ 256) ∧ (∀ x ∈ v.amounts, x < 2 ^ 256) ∧ v.recipient.length = 20
+  (∀ x ∈ v.ids, x < 2 ^ 256) ∧ (∀ x ∈ v.amounts, x < 2 ^ 256) ∧ v.recipient.length = 20 ∧
+  v.ids.length < 2 ^ 63 ∧ v.amounts.length < 2 ^ 63 ∧ v.data.length < 2 ^ 63
 
 instance (v : Semi) : Decidable v.WF := by unfold Semi.WF; infer_instance
 
